@@ -1350,3 +1350,105 @@ MUTANTS += [
  dict(name='seed-C19-set-length-sibling', prop='C19', patch='seeded/C19-secretkey-set-length-through-sibling-wrapper/patch.diff', expect='VIOLATION property=C19'),
  dict(name='seed-C20-verify-generator-cache', prop='C20', patch='seeded/C20-verify-generator-cache-by-params-address/patch.diff', expect='VIOLATION property=C20'),
 ]
+
+# ---- benign-refactor round 3 (loop forms, condition restructuring, named locals; no helper extraction) and defective variants
+MUTANTS += [
+ dict(name='benign-r3-C01', prop='C01', benign=True, expect='', patch='selftest/fixes/benign-r3-C01.patch'),
+ dict(name='benign-r3-C01-on-C08', prop='C08', benign=True, expect='', patch='selftest/fixes/benign-r3-C01.patch'),
+ dict(name='benign-r3-C05', prop='C05', benign=True, expect='', patch='selftest/fixes/benign-r3-C05.patch'),
+ dict(name='benign-r3-C05-on-C18', prop='C18', benign=True, expect='', patch='selftest/fixes/benign-r3-C05.patch'),
+ dict(name='benign-r3-C06', prop='C06', benign=True, expect='', patch='selftest/fixes/benign-r3-C06.patch'),
+ dict(name='benign-r3-C06-on-C17', prop='C17', benign=True, expect='', patch='selftest/fixes/benign-r3-C06.patch'),
+ dict(name='benign-r3-C08', prop='C08', benign=True, expect='', patch='selftest/fixes/benign-r3-C08.patch'),
+ dict(name='benign-r3-C08-on-C01', prop='C01', benign=True, expect='', patch='selftest/fixes/benign-r3-C08.patch'),
+ dict(name='benign-r3-C09', prop='C09', benign=True, expect='', patch='selftest/fixes/benign-r3-C09.patch'),
+ dict(name='benign-r3-C09-on-C10', prop='C10', benign=True, expect='', patch='selftest/fixes/benign-r3-C09.patch'),
+ dict(name='benign-r3-C11', prop='C11', benign=True, expect='', patch='selftest/fixes/benign-r3-C11.patch'),
+ dict(name='benign-r3-C11-on-C12', prop='C12', benign=True, expect='', patch='selftest/fixes/benign-r3-C11.patch'),
+ dict(name='benign-r3-C12', prop='C12', benign=True, expect='', patch='selftest/fixes/benign-r3-C12.patch'),
+ dict(name='benign-r3-C12-on-C11', prop='C11', benign=True, expect='', patch='selftest/fixes/benign-r3-C12.patch'),
+ dict(name='benign-r3-C14', prop='C14', benign=True, expect='', patch='selftest/fixes/benign-r3-C14.patch'),
+ dict(name='benign-r3-C14-on-C11', prop='C11', benign=True, expect='', patch='selftest/fixes/benign-r3-C14.patch'),
+ dict(name='benign-r3-C15', prop='C15', benign=True, expect='', patch='selftest/fixes/benign-r3-C15.patch'),
+ dict(name='benign-r3-C15-on-C17', prop='C17', benign=True, expect='', patch='selftest/fixes/benign-r3-C15.patch'),
+ dict(name='benign-r3-C18', prop='C18', benign=True, expect='', patch='selftest/fixes/benign-r3-C18.patch'),
+ dict(name='benign-r3-C18-on-C04', prop='C04', benign=True, expect='', patch='selftest/fixes/benign-r3-C18.patch'),
+ dict(name='benign-r3-C01-guard-and', prop='C01', expect='R-GUARD/G1', patch='selftest/fixes/benign-r3-C01.patch',
+      edits=[('src/bls12_381/pairing.cpp', '''                if (pair.g1->is_zero() || pair.g2->is_zero()) {
+                    continue;
+                }
+                miller_doubling_step(coeffs, pair.r);''', '''                if (pair.g1->is_zero() && pair.g2->is_zero()) {
+                    continue;
+                }
+                miller_doubling_step(coeffs, pair.r);''')]),
+ dict(name='benign-r3-C01-loop-stops-at-1', prop='C01', expect='ccl|', patch='selftest/fixes/benign-r3-C01.patch',
+      edits=[('src/bls12_381/pairing.cpp', 'while (i != 0) {', 'while (i != 1) {')]),
+ dict(name='benign-r3-C05-equal-or', prop='C05', expect='VIOLATION property=C05', patch='selftest/fixes/benign-r3-C05.patch',
+      edits=[('include/bls12_381/curve.hpp', 'return a_zero && b_zero;', 'return a_zero || b_zero;')]),
+ dict(name='benign-r3-C09-padding-skips-byte-1', prop='C09', expect='padding', patch='selftest/fixes/benign-r3-C09.patch',
+      edits=[('src/bls12_381/curve.cpp', 'while (i != 0) {', 'while (i != 1) {')]),
+ dict(name='benign-r3-C11-x-never-advanced', prop='C11', expect='VIOLATION property=C11', patch='selftest/fixes/benign-r3-C11.patch',
+      edits=[('src/wkdibe/api.cpp', '''            if (in_parent) {
+                x++;
+            }''', '''            if (in_parent && k != attrs.length) {
+                x++;
+            }''')]),
+ dict(name='benign-r3-C12-k-advanced-when-unlisted', prop='C12', expect='VIOLATION property=C12', patch='selftest/fixes/benign-r3-C12.patch',
+      edits=[('src/wkdibe/api.cpp', '''            if (listed) {
+                k++;
+            }''', '''            if (!listed) {
+                k++;
+            }''')]),
+ dict(name='benign-r3-C14-wrong-cursor-in-gt-arm', prop='C14', expect='VIOLATION property=C14', patch='selftest/fixes/benign-r3-C14.patch',
+      edits=[('src/wkdibe/api.cpp', '''                    precomputed.prodexp.add(precomputed.prodexp, temp);
+                    j++;
+                } else {''', '''                    precomputed.prodexp.add(precomputed.prodexp, temp);
+                    i++;
+                } else {''')]),
+ dict(name='benign-r3-C14-missing-continue', prop='C14', expect='VIOLATION property=C14', patch='selftest/fixes/benign-r3-C14.patch',
+      edits=[('src/wkdibe/api.cpp', '''                    i++;
+                }
+                continue;
+            }''', '''                    i++;
+                }
+            }''')]),
+ dict(name='benign-r3-C15-hsig-overlaps-h0', prop='C15', expect='VIOLATION property=C15', patch='selftest/fixes/benign-r3-C15.patch',
+      edits=[('src/wkdibe/marshal.cpp', '''            h->encode(hsigaffine);
+
+            h++;''', '''            h->encode(hsigaffine);''')]),
+ dict(name='benign-r3-C15-last-slot-not-read', prop='C15', expect='VIOLATION property=C15', patch='selftest/fixes/benign-r3-C15.patch',
+      edits=[('src/wkdibe/marshal.cpp', '''        int i = 0;
+        while (i != this->l) {
+            G1Affine haffine;
+            if (!h[i].decode(haffine, checked)) {''', '''        int i = 1;
+        while (i != this->l) {
+            G1Affine haffine;
+            if (!h[i].decode(haffine, checked)) {''')]),
+ dict(name='benign-r3-C06-negative-digit-plain-index', prop='C06', expect='VIOLATION property=C06', patch='selftest/fixes/benign-r3-C06.patch',
+      edits=[('include/bls12_381/wnaf.hpp', 'tmp.negate(table.table[(-digit) >> 1]);', 'tmp.negate(table.table[digit >> 1]);')]),
+]
+
+MUTANTS += [
+ dict(name='c05-equal-identity-vs-finite-true', prop='C05', expect='G8|equal-identity',
+      edits=[('include/bls12_381/curve.hpp', '''            if (b.is_zero()) {
+                return false;
+            }
+
+            /*
+             * The affine coordinates (x, y) correspond to the projective''', '''            if (b.is_zero()) {
+                return true;
+            }
+
+            /*
+             * The affine coordinates (x, y) correspond to the projective''')]),
+ dict(name='c05-equal-identity-first-arm-negated', prop='C05', expect='G8|equal-identity',
+      edits=[('include/bls12_381/curve.hpp', '''            if (a.is_zero()) {
+                return b.is_zero();
+            }
+
+            if (b.is_zero()) {''', '''            if (a.is_zero()) {
+                return !b.is_zero();
+            }
+
+            if (b.is_zero()) {''')]),
+]
